@@ -2,6 +2,7 @@ package c14
 
 import (
 	"fmt"
+	"math"
 	"sort"
 	"testing"
 
@@ -13,7 +14,7 @@ import (
 // MapCase is one map scenario: the entries are inserted in order (a later entry
 // with the same key replaces the earlier one).
 type MapCase struct {
-	Entries [][2]int `json:"entries"` // (key 0..11, value 0..3)
+	Entries [][2]int `json:"entries"` // (key, value); C14.maps: keys 0..11, values 0..3; C14.maps.big: any int keys
 	Nil     bool     `json:"nil"`     // pass a nil map when there are no entries
 }
 
@@ -21,10 +22,11 @@ type myMap map[int]int
 
 type kv struct{ k, v int }
 
-const mapRule = "case = list of (key 0..11, value 0..3) entries, inserted in order into a named map type (nil map when empty and flagged); " +
+const mapRule = "case = list of (key, value 0..3) entries, inserted in order into a named map type (nil map when empty and flagged); " +
 	"the oracle is a key-sorted list of pairs, never a Go map iteration: ContainsValue and KeyOf for values -1..4 (KeyOf: found flag exact, " +
-	"returned key must be some key holding that value), HasKey for keys -1..12, Keys and Values as sorted multisets, Clone equal to the model " +
-	"and independent (overwrite, delete and add on the clone, then Clear on it, leave the original unchanged), Clear empties its argument; " +
+	"returned key must be some key holding that value), HasKey for keys -1..12 and k-1, k, k+1 for every key k of the map, Keys and Values as sorted multisets, " +
+	"Clone equal to the model, never nil (a nil map cannot be modified) and independent: every entry of the clone is overwritten, one deleted and a new key added, " +
+	"the clone must then hold exactly that and the original be unchanged; then Clear on it; Clear empties its argument and leaves it usable; " +
 	"after every call the original map is compared with the model; non-trivial = at least 3 entries and a value held by 2 or more keys"
 
 // RunMap executes every helper of maps/maps.go on the case.
@@ -53,6 +55,19 @@ func RunMap(c MapCase) pbt.Outcome {
 	}
 	m := build()
 	desc := fmt.Sprintf("map%v", model)
+	if len(model) > 40 {
+		desc = fmt.Sprintf("map(%d entries)%v...%v", len(model), model[:12], model[len(model)-3:])
+	}
+	showPairs := func(x myMap) string {
+		if len(x) > 40 {
+			return fmt.Sprintf("a map of %d entries", len(x))
+		}
+		return fmt.Sprint(sortedPairs(x))
+	}
+	hasKey := func(k int) bool {
+		at := sort.Search(len(model), func(i int) bool { return model[i].k >= k })
+		return at < len(model) && model[at].k == k
+	}
 	out := pbt.Outcome{}
 	// same: map x holds exactly the model's pairs (lookups only, no iteration)
 	same := func(x myMap) bool {
@@ -68,7 +83,7 @@ func RunMap(c MapCase) pbt.Outcome {
 	}
 	intact := func(op string) string {
 		if (m == nil) != (len(model) == 0 && c.Nil) || !same(m) {
-			return fmt.Sprintf("%s modified its input, which was %s\nnow %v", op, desc, sortedPairs(m))
+			return fmt.Sprintf("%s modified its input, which was %s\nnow %s", op, desc, showPairs(m))
 		}
 		return ""
 	}
@@ -113,11 +128,20 @@ func RunMap(c MapCase) pbt.Outcome {
 		}
 	}
 	for k := -1; k <= 12; k++ {
-		at := sort.Search(len(model), func(i int) bool { return model[i].k >= k })
-		want := at < len(model) && model[at].k == k
 		out.Evals++
-		if got := maps.HasKey(m, k); got != want {
+		if got, want := maps.HasKey(m, k), hasKey(k); got != want {
 			return pbt.Fail("HasKey(%s, %d) = %v, want %v", desc, k, got, want)
+		}
+	}
+	for _, p := range model {
+		for k := p.k - 1; ; k++ { // p.k-1 and p.k+1 may wrap around: still valid probes
+			out.Evals++
+			if got, want := maps.HasKey(m, k), hasKey(k); got != want {
+				return pbt.Fail("HasKey(%s, %d) = %v, want %v", desc, k, got, want)
+			}
+			if k == p.k+1 {
+				break
+			}
 		}
 	}
 	if msg := intact("HasKey"); msg != "" {
@@ -135,7 +159,7 @@ func RunMap(c MapCase) pbt.Outcome {
 			want[i] = p.k
 		}
 		if !eqInts(got, want) {
-			return pbt.Fail("Keys(%s) is not a permutation of the keys %v\ngot %v (sorted %v)", desc, want, keys, got)
+			return pbt.Fail("Keys(%s) is not a permutation of the keys %s\ngot %s (sorted %s)", desc, show(want), show(keys), show(got))
 		}
 		for i := range keys {
 			keys[i] = scribble
@@ -152,7 +176,7 @@ func RunMap(c MapCase) pbt.Outcome {
 		}
 		sort.Ints(want)
 		if !eqInts(got, want) {
-			return pbt.Fail("Values(%s) is not a permutation of the values %v\ngot %v (sorted %v)", desc, want, vals, got)
+			return pbt.Fail("Values(%s) is not a permutation of the values %s\ngot %s (sorted %s)", desc, show(want), show(vals), show(got))
 		}
 		for i := range vals {
 			vals[i] = scribble
@@ -162,32 +186,57 @@ func RunMap(c MapCase) pbt.Outcome {
 		}
 	}
 
-	// Clone: equal, new, independent
+	// Clone: equal, new (never nil: a nil map cannot be modified), independent
 	{
 		var cl myMap = maps.Clone(m)
 		out.Evals++
 		if !same(cl) {
-			return pbt.Fail("Clone(%s) is not an equal map\ngot %v", desc, sortedPairs(cl))
+			return pbt.Fail("Clone(%s) is not an equal map\ngot %s", desc, showPairs(cl))
 		}
 		if msg := intact("Clone(m)"); msg != "" {
 			return pbt.Fail("%s", msg)
 		}
-		if cl != nil { // a nil clone of an empty map shares nothing; there is nothing to overwrite
-			for _, p := range model {
-				cl[p.k] = p.v + 100
-			}
-			if len(model) > 0 {
-				delete(cl, model[0].k)
-			}
-			cl[99] = 1
+		if cl == nil {
+			return pbt.Fail("Clone(%s) returned a nil map: the result is not a new map that can be modified (a write to it panics with 'assignment to entry in nil map')", desc)
 		}
+		for _, p := range model {
+			cl[p.k] = p.v + 100
+		}
+		if len(model) > 0 {
+			delete(cl, model[0].k)
+		}
+		fresh := 99
+		for hasKey(fresh) {
+			fresh++
+		}
+		cl[fresh] = 1
 		if msg := intact("Clone(m) (after overwriting, deleting from and adding to its result)"); msg != "" {
 			return pbt.Fail("%s", msg)
+		}
+		// the clone took the modifications
+		wantLen := 1
+		if len(model) > 0 {
+			wantLen = len(model)
+		}
+		okMod := len(cl) == wantLen
+		if v, ok := cl[fresh]; !ok || v != 1 {
+			okMod = false
+		}
+		for i, p := range model {
+			v, ok := cl[p.k]
+			if i == 0 {
+				okMod = okMod && !ok
+			} else {
+				okMod = okMod && ok && v == p.v+100
+			}
+		}
+		if !okMod {
+			return pbt.Fail("Clone(%s): the result does not behave like a map of its own: after overwriting every entry with value+100, deleting its smallest key and adding key %d it holds\n%s", desc, fresh, showPairs(cl))
 		}
 		maps.Clear(cl)
 		out.Evals++
 		if len(cl) != 0 {
-			return pbt.Fail("Clear(modified clone of %s) did not empty the map\nleft %d entries: %v", desc, len(cl), sortedPairs(cl))
+			return pbt.Fail("Clear(modified clone of %s) did not empty the map\nleft %d entries: %s", desc, len(cl), showPairs(cl))
 		}
 		if msg := intact("Clear(clone)"); msg != "" {
 			return pbt.Fail("%s", msg)
@@ -200,7 +249,7 @@ func RunMap(c MapCase) pbt.Outcome {
 		maps.Clear(twin)
 		out.Evals++
 		if len(twin) != 0 {
-			return pbt.Fail("Clear(%s) did not empty the map\nleft %d entries: %v", desc, len(twin), sortedPairs(twin))
+			return pbt.Fail("Clear(%s) did not empty the map\nleft %d entries: %s", desc, len(twin), showPairs(twin))
 		}
 		for _, p := range model {
 			if _, ok := twin[p.k]; ok {
@@ -213,7 +262,15 @@ func RunMap(c MapCase) pbt.Outcome {
 		if twin != nil {
 			twin[5] = 6 // still usable
 			if len(twin) != 1 || twin[5] != 6 {
-				return pbt.Fail("Clear(%s): the map is not usable afterwards: %v", desc, sortedPairs(twin))
+				return pbt.Fail("Clear(%s): the map is not usable afterwards: %s", desc, showPairs(twin))
+			}
+			// and can be refilled completely
+			delete(twin, 5)
+			for _, p := range model {
+				twin[p.k] = p.v
+			}
+			if !same(twin) {
+				return pbt.Fail("Clear(%s): refilling the map afterwards does not give the same map again: %s", desc, showPairs(twin))
 			}
 		}
 	}
@@ -230,8 +287,17 @@ func RunMap(c MapCase) pbt.Outcome {
 		lab("entries=1")
 	case n <= 4:
 		lab("entries=2..4")
+	case n <= 8:
+		lab("entries=5..8")
+	case n <= 64:
+		lab("entries=9..64")
+	case n <= 1024:
+		lab("entries=65..1024")
 	default:
-		lab("entries>=5")
+		lab("entries>1024")
+	}
+	if n > 0 && (model[0].k < -1<<40 || model[n-1].k > 1<<40) {
+		lab("keys:far-from-zero")
 	}
 	if keyofDup {
 		lab("value-held-by->=2-keys")
@@ -260,10 +326,13 @@ func sortedPairs(m myMap) []kv {
 
 var specMaps = pbt.Register(&pbt.Spec[MapCase]{
 	Property: "C14", Name: "C14.maps",
-	Rule: "rapid: 0..8 entries, keys 0..11, values 0..v (v drawn 0..3); " + mapRule,
+	Rule: "rapid: 0..8 entries (one case in eight: 9..40), keys 0..11, values 0..v (v drawn 0..3); " + mapRule,
 	Gen: func(t *rapid.T) MapCase {
 		maxV := rapid.IntRange(0, 3).Draw(t, "maxValue")
 		n := rapid.IntRange(0, 8).Draw(t, "n")
+		if rapid.IntRange(0, 7).Draw(t, "more") == 0 {
+			n = rapid.IntRange(9, 40).Draw(t, "nMore")
+		}
 		es := make([][2]int, n)
 		for i := range es {
 			es[i] = [2]int{rapid.IntRange(0, 11).Draw(t, "k"), rapid.IntRange(0, maxV).Draw(t, "v")}
@@ -274,3 +343,84 @@ var specMaps = pbt.Register(&pbt.Spec[MapCase]{
 })
 
 func TestC14Maps(t *testing.T) { pbt.Check(t, specMaps) }
+
+// ---- C14.maps.big: maps around the sizes at which Go maps (and possible replacements) change their layout
+
+// mapSizes: 2^b-1, 2^b, 2^b+1 and the growth thresholds of Go's map implementation 6.5*2^b (+-1) up to max.
+func mapSizes(max int) []int {
+	var ns []int
+	for p := 8; p <= max; p *= 2 {
+		ns = append(ns, p-1, p, p+1, p*13/16-1, p*13/16, p*13/16+1)
+	}
+	return ns
+}
+
+// bigMapCase builds n entries; key pattern: 0 consecutive, 1 stride 64, 2 MaxInt-i, 3 MinInt+i, 4 i<<32, 5 pseudo-random
+// (with repeats, so fewer than n keys remain), 6 descending insertion order. Values cycle through 0..2, one single entry
+// holds the value 3 (KeyOf/ContainsValue must find the one holder).
+func bigMapCase(n, pattern int) MapCase {
+	g := lcg(n*7 + pattern)
+	es := make([][2]int, n)
+	for i := range es {
+		k := i
+		switch pattern % 7 {
+		case 1:
+			k = i * 64
+		case 2:
+			k = math.MaxInt - i
+		case 3:
+			k = math.MinInt + i
+		case 4:
+			k = i << 32
+		case 5:
+			k = g.next(2*n) - n/2
+		case 6:
+			k = n - i
+		}
+		es[i] = [2]int{k, i % 3}
+	}
+	if n > 0 {
+		es[n/2][1] = 3
+		if pattern%7 == 5 { // the key of that entry may be overwritten by a later duplicate: make it unique
+			es[n/2][0] = 3 * n
+		}
+	}
+	return MapCase{Entries: es}
+}
+
+var specMapsBig = pbt.Register(&pbt.Spec[MapCase]{
+	Property: "C14", Name: "C14.maps.big",
+	Rule: "enumerated: n entries for n in {2^b-1, 2^b, 2^b+1, 6.5*2^(b-3) and its neighbours} for 2^b in 8..4096 (thorough: ..65536) x key pattern " +
+		"(consecutive, stride 64, MaxInt-i, MinInt+i, i<<32, pseudo-random with repeated keys, descending), values i%3 and a single entry holding 3; " +
+		"rapid: size class 10/40/150/600 (up to twice that), keys drawn from -r..r with r in {n, 4n, 2^40} optionally shifted to the top or bottom of the int range, values 0..3; " + mapRule,
+	Enum: func(shard, shards int, tier string, yield func(MapCase) bool) {
+		max := 4096
+		if tier == "thorough" {
+			max = 65536
+		}
+		i := 0
+		for _, n := range mapSizes(max) {
+			for pattern := 0; pattern < 7; pattern++ {
+				i++
+				if i%shards != shard {
+					continue
+				}
+				if !yield(bigMapCase(n, pattern)) {
+					return
+				}
+			}
+		}
+	},
+	Gen: func(t *rapid.T) MapCase {
+		class := rapid.SampledFrom([]int{10, 40, 150, 600}).Draw(t, "sizeclass")
+		r := rapid.SampledFrom([]int{class, 4 * class, 1 << 40}).Draw(t, "keyRange")
+		shift := rapid.SampledFrom([]int{0, 0, math.MaxInt - r, math.MinInt + r}).Draw(t, "keyShift")
+		es := rapid.SliceOfN(rapid.Custom(func(t *rapid.T) [2]int {
+			return [2]int{rapid.IntRange(-r, r).Draw(t, "k") + shift, rapid.IntRange(0, 3).Draw(t, "v")}
+		}), class, 2*class).Draw(t, "entries")
+		return MapCase{Entries: es}
+	},
+	Run: RunMap, Quick: 300, Thorough: 2000,
+})
+
+func TestC14MapsBig(t *testing.T) { pbt.Check(t, specMapsBig) }
